@@ -1059,7 +1059,8 @@ static void run_coll(Rng& g, long nops, std::size_t max_node, std::size_t block_
             std::size_t size = pick_size(), count = 1 + g.below(5);
             if (g.chance(10))
                 count = block_size / size + g.below(3);
-            else if (g.chance(25))
+            else if (c->next_capacity() < (std::size_t(1) << 17) && g.chance(25))
+                // (only while the blocks are small: each such array makes a growing source double its block)
                 // just above the default refill (next block / number of buckets): the third stage of allocate_array,
                 // which reserves exactly what the array needs; sizes that are not a multiple of the bucket's node size included
                 count = c->next_capacity() / c->pools_.size() / size + 1 + g.below(4);
